@@ -19,7 +19,6 @@ Size(g)       == Len(g)
 \* rank of world process w in g (MPI_Group_rank seen from w)
 RankOf(g, w)  == IF w \in Range(g) THEN (CHOOSE i \in DOMAIN g : g[i] = w) - 1 ELSE Undefined
 
-In(g)(w)    == w \in Range(g)
 Union(g1, g2)        == g1 \o SelectSeq(g2, LAMBDA w : w \notin Range(g1))
 Intersection(g1, g2) == SelectSeq(g1, LAMBDA w : w \in Range(g2))
 Difference(g1, g2)   == SelectSeq(g1, LAMBDA w : w \notin Range(g2))
@@ -84,7 +83,7 @@ SetLaws(g1, g2, n) ==
   /\ Range(x) = Range(g1) \cap Range(g2)
   /\ Range(d) = Range(g1) \ Range(g2)
   /\ u = g1 \o Difference(g2, g1)
-  /\ g1 = g1 /\ Compare(x, Intersection(g2, g1)) \in {"ident", "similar"}
+  /\ Compare(x, Intersection(g2, g1)) \in {"ident", "similar"}
   /\ Compare(u, Union(g2, g1)) \in {"ident", "similar"}
   /\ Len(x) + Len(d) = Len(g1)
   /\ \A w \in Range(x) : \A v \in Range(x) : RankOf(x, w) < RankOf(x, v) <=> RankOf(g1, w) < RankOf(g1, v)
